@@ -1,6 +1,7 @@
 package main
 
 import (
+	"strings"
 	"crypto/rand"
 	"encoding/binary"
 	"encoding/json"
@@ -126,6 +127,9 @@ func init() {
 				{ // word picks only: a wordlist Generate of Length 1 costs ~1 us, a character Generate 30-600 us,
 					// which would put the 2^32-word adjudication beyond any budget
 					w := WLCfg{Words: genWords(r, listOpt{min: 2, max: 12, twins: 0.3, precap: 0.1, caseless: 0.1, dups: 0.4}), Length: 1, Cap: "none", Sep: SepCfg{Kind: "char", Char: ""}}
+					if r.Chance(0.3) {
+						w = WLCfg{Words: []string{"ka"}, Length: pick(r, []int{3, 5, 6, 7, 9, 10}), Cap: "one", Sep: SepCfg{Kind: "char", Char: ""}}
+					}
 					s.APIWL = &w
 				}
 				return s
@@ -690,7 +694,25 @@ func apiGenerator(s *C01Spec) (g interface{}, alts []string, desc string, ok boo
 	if b.List == nil {
 		return nil, nil, "", false
 	}
-	return &b.Recipe, modelList(s.APIWL.Words).Kept, "WLRecipe" + s.APIWL.String(), true
+	kept := modelList(s.APIWL.Words).Kept
+	if s.APIWL.Cap == "one" && len(kept) == 1 && s.APIWL.Length >= 2 {
+		// the pick of the capitalised position: a single-word list, so the output is determined by
+		// the first draw alone; alternative i = the password with word i title-cased
+		var alts []string
+		for i := 0; i < s.APIWL.Length; i++ {
+			var sb strings.Builder
+			for j := 0; j < s.APIWL.Length; j++ {
+				if j == i {
+					sb.WriteString(strings.Title(kept[0]))
+				} else {
+					sb.WriteString(kept[0])
+				}
+			}
+			alts = append(alts, sb.String())
+		}
+		return &b.Recipe, alts, "WLRecipe" + s.APIWL.String(), true
+	}
+	return &b.Recipe, kept, "WLRecipe" + s.APIWL.String(), true
 }
 
 func runC01API(c *Ctx, s *C01Spec) {
@@ -724,6 +746,18 @@ func runC01API(c *Ctx, s *C01Spec) {
 	for k := 0; k < 6; k++ {
 		words = append(words, biasedWord(r, n))
 	}
+	// words consumed by a generation whose first raw word is accepted (the first draw may be
+	// followed by others: a capitalised-position pick is followed by the word picks)
+	baseline := 1 << 30
+	for k := uint32(1); k <= 24; k++ {
+		pr := genOp(NewTape(TapeSpec{Mode: "raw", Words: []uint32{k * 0x01010101}, Default: "random", Seed: 0xa91}), g)
+		if pr.Kind == "ok" && len(pr.Tape.Served)/4 < baseline {
+			baseline = len(pr.Tape.Served) / 4
+		}
+	}
+	if baseline == 1<<30 {
+		return
+	}
 	for _, w := range words {
 		res := genOp(NewTape(TapeSpec{Mode: "raw", Words: []uint32{w}, Default: "random", Seed: 0xa91}), g)
 		c.Eval(1)
@@ -739,7 +773,7 @@ func runC01API(c *Ctx, s *C01Spec) {
 		if macc {
 			want = alts[mi]
 		}
-		agree := (consumed == 1) == macc && (!macc || res.Pw.S == want)
+		agree := (consumed == baseline) == macc && (!macc || res.Pw.S == want)
 		c.Count("api_draws_observed", 1)
 		if !agree {
 			c.Count("filter_disagreements", 1)
@@ -785,6 +819,17 @@ func countChildAPIMain(args []string) int {
 	fr := &fastReader{cont: 0}
 	rand.Reader = fr
 	res := apiCountResult{Counts: map[string]uint64{}}
+	// reads made by a generation whose first raw word is accepted
+	baseline := 1 << 30
+	for k := uint32(1); k <= 24; k++ {
+		fr.word, fr.reads = k*0x01010101, 0
+		func() {
+			defer func() { recover() }()
+			if p, err := g.Generate(); err == nil && p != nil && fr.reads < baseline {
+				baseline = fr.reads
+			}
+		}()
+	}
 	for v := lo; v < hi; v++ {
 		fr.word = uint32(v)
 		fr.reads = 0
@@ -809,7 +854,7 @@ func countChildAPIMain(args []string) int {
 			}
 			continue
 		}
-		if fr.reads != 1 {
+		if fr.reads != baseline {
 			res.Rejected++
 			continue
 		}
